@@ -131,6 +131,7 @@ type fn struct {
 	skipped     []string            // calls made for an effect the model does not carry
 	prefixLen   int                 // Prefix mode: how many top-level statements were translated
 	windowFirst int                 // Prefix mode with a window: index of the first translated statement
+	preLocals   []string            // window mode: scalar locals computed before the window that it reads (parameters of the definition)
 	// fieldSet: a field of an opaque variable the function has assigned (`position.PositionHealth = h`): later reads read the assigned value
 	fieldSet map[string]string
 	// assignedNames: every identifier the function body assigns (`x = ..`, `x := ..`, `x++`): a scalar parameter that is NOT among them keeps
@@ -1356,6 +1357,38 @@ func (t *tr) function() string {
 			}
 		}
 		f.windowFirst = first
+		if first > 0 {
+			// scalar locals the window reads but does not define (they were computed before it): parameters of the definition, "the value
+			// of x where the window begins", in order of first use
+			startPos := list[first].Pos()
+			seen := map[string]bool{}
+			for _, st := range list[first:] {
+				ast.Inspect(st, func(n ast.Node) bool {
+					id, ok := n.(*ast.Ident)
+					if !ok {
+						return true
+					}
+					v, isVar := f.pkg.TypesInfo.Uses[id].(*types.Var)
+					if !isVar || v.IsField() || v.Pos() >= startPos || v.Pos() < f.decl.Body.Pos() || seen[id.Name] {
+						return true
+					}
+					if _, isPar := f.parIx[id.Name]; isPar {
+						return true
+					}
+					switch kindOf(v.Type()) {
+					case kDec, kInt, kMach:
+						seen[id.Name] = true
+						params = append(params, fmt.Sprintf("(%s : Int)", ident(id.Name)))
+						f.preLocals = append(f.preLocals, id.Name)
+					case kBool:
+						seen[id.Name] = true
+						params = append(params, fmt.Sprintf("(%s : Bool)", ident(id.Name)))
+						f.preLocals = append(f.preLocals, id.Name)
+					}
+					return true
+				})
+			}
+		}
 		t.guardIf = nil
 		if guardIf[f.spec.Lean] {
 			is, ok := list[start%len(list)].(*ast.IfStmt)
@@ -1436,6 +1469,9 @@ func (t *tr) function() string {
 	if f.spec.Prefix {
 		if f.windowFirst > 0 {
 			out = append(out, fmt.Sprintf("-- WINDOW: top-level statements %d to %d of %d (what is computed before the window is outside this definition)", f.windowFirst+1, f.prefixLen, len(f.decl.Body.List)))
+			if len(f.preLocals) > 0 {
+				out = append(out, "-- locals computed before the window, as parameters: "+strings.Join(f.preLocals, ", "))
+			}
 		} else if loopBody[f.spec.Lean] {
 			out = append(out, fmt.Sprintf("-- LOOP BODY: the first %d statements of the body of the function's first range loop, for an arbitrary element", f.prefixLen))
 		} else {
